@@ -1,6 +1,7 @@
 package main
 
 import (
+	"go/token"
 	"go/types"
 	"fmt"
 	"strings"
@@ -341,41 +342,63 @@ func c17Runner(c *Ctx, OUT *ssa.Function) {
 	// error mapping
 	type exp struct{ key, typ, what string }
 	stderrD := od + "#1"
-	var um *ssa.Call
-	for _, ci := range findCalls(RUN, "encoding/json.Unmarshal") {
-		call := ci.(*ssa.Call)
-		if desc(call.Call.Args[0]) == stderrD {
-			um = call
-		}
-	}
 	cases := map[string]bool{}
-	for _, b := range RUN.Blocks {
-		r, ok := blockTerm(b).(*ssa.Return)
-		if !ok || len(r.Results) != 1 {
-			continue
-		}
-		mi, ok := r.Results[0].(*ssa.MakeInterface)
-		if !ok {
-			continue
-		}
-		tn := namedOf(mi.X.Type())
-		g, _ := fi.mustPassBetween([]int{0}, map[int]bool{b.Index: true})
-		c.Evals++
-		failed := labelHas(g, "NE("+od+"#err,nil)")
-		switch {
-		case tn == "ngo/plugin.PluginExecutableFileError" && failed && labelHas(g, "EQ(len("+stderrD+"),const:0)"):
-			cases["executable"] = true
-		case tn == "ngo/plugin.PluginMalformedError" && failed && um != nil && labelHas(g, "NE(len("+stderrD+"),const:0)") && labelHas(g, "NE("+desc(um)+",nil)"):
-			cases["malformed-stderr"] = true
-		case tn == "ngo/plugin/proto.RequestError" && failed && um != nil && labelHas(g, "EQ("+desc(um)+",nil)"):
-			// the decoded error object
-			if al, _ := unwrapLoadAlloc(mi.X); al != nil && al == unwrap(um.Call.Args[1]) {
-				cases["plugin-error"] = true
+	// the mapping is read off the exits of the runner, or of an unexported helper the runner's failing branch returns through
+	// (`return mapError(…, stderr, err)`): there the process error is already known to be non-nil and stderr is a parameter
+	var scan func(fn *ssa.Function, stderrD string, failedAlready bool, depth int)
+	scan = func(fn *ssa.Function, stderrD string, failedAlready bool, depth int) {
+		ffi := w.Info(fn)
+		var um *ssa.Call
+		for _, ci := range findCalls(fn, "encoding/json.Unmarshal") {
+			call := ci.(*ssa.Call)
+			if desc(call.Call.Args[0]) == stderrD {
+				um = call
 			}
-		case tn == "ngo/plugin.PluginMalformedError" && labelHas(g, "EQ("+od+"#err,nil)"):
-			cases["malformed-stdout"] = true
+		}
+		for _, b := range fn.Blocks {
+			r, ok := blockTerm(b).(*ssa.Return)
+			if !ok || len(r.Results) != 1 {
+				continue
+			}
+			g, _ := ffi.mustPassBetween([]int{0}, map[int]bool{b.Index: true})
+			if b.Index == 0 {
+				g = map[string]string{}
+			}
+			c.Evals++
+			failed := failedAlready || labelHas(g, "NE("+od+"#err,nil)")
+			if call, ok := r.Results[0].(*ssa.Call); ok && failed && depth < 2 {
+				if h := staticCallee(call); h != nil && h.Blocks != nil && w.IsProductFn(h) && !token.IsExported(h.Name()) && len(h.Params) == len(call.Call.Args) {
+					for k, a := range call.Call.Args {
+						if desc(a) == stderrD {
+							c.SeenFn(h.String())
+							scan(h, "param:"+h.Params[k].Name(), true, depth+1)
+						}
+					}
+				}
+				continue
+			}
+			mi, ok := r.Results[0].(*ssa.MakeInterface)
+			if !ok {
+				continue
+			}
+			tn := namedOf(mi.X.Type())
+			switch {
+			case tn == "ngo/plugin.PluginExecutableFileError" && failed && labelHas(g, "EQ(len("+stderrD+"),const:0)"):
+				cases["executable"] = true
+			case tn == "ngo/plugin.PluginMalformedError" && failed && um != nil && labelHas(g, "NE(len("+stderrD+"),const:0)") && labelHas(g, "NE("+desc(um)+",nil)"):
+				cases["malformed-stderr"] = true
+			case tn == "ngo/plugin/proto.RequestError" && failed && um != nil && labelHas(g, "EQ("+desc(um)+",nil)"):
+				// the decoded error object
+				if al, _ := unwrapLoadAlloc(mi.X); al != nil && al == unwrap(um.Call.Args[1]) {
+					cases["plugin-error"] = true
+				}
+			case tn == "ngo/plugin.PluginMalformedError" && !failedAlready && labelHas(g, "EQ("+od+"#err,nil)"):
+				cases["malformed-stdout"] = true
+			}
 		}
 	}
+	scan(RUN, stderrD, false, 0)
+	_ = fi
 	for _, k := range []string{"executable", "malformed-stderr", "plugin-error", "malformed-stdout"} {
 		what := map[string]string{
 			"executable":       "failing process with empty stderr -> PluginExecutableFileError",
